@@ -633,7 +633,12 @@ def _deep(eng, x):
         f = ufunc("deepcopy", Obj, Obj)
         return f(x)
     if isinstance(x, Rec):
-        raise Unsupported("deepcopy of interpreted instance")
+        if any(n in x.cls.ns for n in ("__deepcopy__", "__reduce__", "__reduce_ex__", "__getstate__", "__setstate__", "__copy__")):
+            raise Unsupported("deepcopy of an interpreted instance with its own copy protocol")
+        # object.__reduce_ex__: a new instance of the same class (no __init__), instance dictionary and dict / list content copied deeply
+        new = Rec(x.cls)
+        new.attrs = {k: _deep(eng, v) for k, v in x.attrs.items()}
+        return new
     return x
 
 
